@@ -26,6 +26,32 @@ func trieMembers(t *trie.Trie) [][]int {
 	return out
 }
 
+// trieMembersNested: the same enumeration with other ForEach calls on the same trie going on: at the at-th member of the outer call
+// an inner call runs (to its end, or stopped after one member); mode 2: an early-stopped call comes first. Returns the outer call's
+// members and the inner call's (nil if no complete inner call ran).
+func trieMembersNested(t *trie.Trie, mode, at int) (outer, inner [][]int) {
+	outer = [][]int{}
+	if mode == 2 {
+		k := 0
+		t.ForEach(func(b []byte) bool { k++; return k <= at })
+	}
+	i := 0
+	t.ForEach(func(b []byte) bool {
+		outer = append(outer, ints(b))
+		if i == at {
+			switch mode {
+			case 1:
+				inner = trieMembers(t)
+			case 3:
+				t.ForEach(func([]byte) bool { return false })
+			}
+		}
+		i++
+		return true
+	})
+	return
+}
+
 func trieClone(t *trie.Trie) (*trie.Trie, error) {
 	j, err := json.Marshal(t)
 	if err != nil {
@@ -195,6 +221,8 @@ type trieEvent struct {
 	Ret     bool     `json:"ret"`
 	Members [][]int  `json:"members"`
 	Has     []hasObs `json:"has"`
+	Nested  bool     `json:"nested"` // inner: the members reported by a ForEach that ran inside the callback of the one that reported members
+	Inner   [][]int  `json:"inner"`
 	Obs     bool     `json:"obs"`   // false: nothing was observed after this step (no ForEach / Has call was made)
 	Panic   bool     `json:"panic"` // the operation or an observation panicked
 }
@@ -242,6 +270,19 @@ func trieDrive(args []string) error {
 			}
 			return b
 		}
+		// one session fills nodes completely: a child for every byte value below the root and below one inner node, then takes
+		// one child away and puts it back
+		var fan []trieOp
+		if sid == 5 {
+			for _, pre := range [][]int{{}, {int(alpha[0])}} {
+				for _, x := range r.Perm(256) {
+					fan = append(fan, trieOp{Op: "add", Arg: append(append([]int{}, pre...), x)})
+				}
+			}
+			fan = append(fan, trieOp{Op: "del", Arg: []int{7}}, trieOp{Op: "add", Arg: []int{7, 7}}, trieOp{Op: "add", Arg: []int{7}},
+				trieOp{Op: "del", Arg: []int{int(alpha[0]), 255}}, trieOp{Op: "del", Arg: []int{255}}, trieOp{Op: "add", Arg: []int{255}})
+			nops = len(fan)
+		}
 		t := trie.New()
 		var recent [][]byte
 		pick := func() []byte {
@@ -266,8 +307,25 @@ func trieDrive(args []string) error {
 		for step := 0; step < nops; step++ {
 			ev := trieEvent{Sid: sid, Step: step}
 			var arg []byte
-			ev.Members, ev.Has = [][]int{}, []hasObs{}
+			ev.Members, ev.Has, ev.Inner = [][]int{}, []hasObs{}, [][]int{}
 			ev.Panic, _ = catch(func() {
+				if fan != nil {
+					ev.Op, arg = fan[step].Op, unints(fan[step].Arg)
+					if ev.Op == "add" {
+						t.Add(arg)
+					} else {
+						ev.Ret = t.Delete(arg)
+					}
+					ev.Arg = ints(arg)
+					ev.Obs = step%16 == 0 || step%256 >= 250 || step%256 < 2 || step >= len(fan)-8
+					if ev.Obs {
+						ev.Members = trieMembers(t)
+						for _, p := range [][]byte{nil, arg, {arg[0]}, {arg[0], 0}, {255}, {0}} {
+							ev.Has = append(ev.Has, hasObs{ints(p), t.Has(p)})
+						}
+					}
+					return
+				}
 				switch x := r.Intn(20); {
 				case x < 9:
 					ev.Op = "add"
@@ -299,7 +357,15 @@ func trieDrive(args []string) error {
 				// between two ForEach / Has calls (anything cached by an observer must survive unobserved updates)
 				ev.Obs = sid%2 == 0 || r.Intn(2) == 0 || step == nops-1
 				if ev.Obs {
-					ev.Members = trieMembers(t)
+					if mode := r.Intn(5); sid%3 == 1 && mode > 0 && mode < 4 {
+						var inner [][]int
+						ev.Members, inner = trieMembersNested(t, mode, r.Intn(3))
+						if inner != nil {
+							ev.Nested, ev.Inner = true, inner
+						}
+					} else {
+						ev.Members = trieMembers(t)
+					}
 					sort.Slice(ev.Members, func(i, j int) bool { return keyOf(ev.Members[i]) < keyOf(ev.Members[j]) })
 					probes := [][]byte{nil, arg, randStr(true), pick()}
 					if len(arg) > 0 {
